@@ -340,7 +340,8 @@ static int validate_type(const char *function, vnadata_internal_t *vdip,
 }
 
 /*
- * vnadata_resize: redefine the dimensions and parameter type
+ * resize_common: redefine the dimensions and parameter type
+ *   @function: name of the user-called function (for error messages)
  *   @vdp: pointer to vnacal_data_t structure
  *   @type: new network parameter data type
  *   @rows: new number of rows
@@ -356,8 +357,8 @@ static int validate_type(const char *function, vnadata_internal_t *vdip,
  *   Cells beyond the current frequencies, cells or ports values
  *   are always filled with initial values.
  */
-int vnadata_resize(vnadata_t *vdp, vnadata_parameter_type_t type,
-	int rows, int columns, int frequencies)
+static int resize_common(const char *function, vnadata_t *vdp,
+	vnadata_parameter_type_t type, int rows, int columns, int frequencies)
 {
     vnadata_internal_t *vdip;
     int old_ports, new_ports;
@@ -377,20 +378,20 @@ int vnadata_resize(vnadata_t *vdp, vnadata_parameter_type_t type,
     }
     if (rows < 0) {
 	_vnadata_error(vdip, VNAERR_USAGE,
-	    "vnadata_resize: rows cannot be negative: %d", rows);
+	    "%s: rows cannot be negative: %d", function, rows);
 	return -1;
     }
     if (columns < 0) {
 	_vnadata_error(vdip, VNAERR_USAGE,
-	    "vnadata_resize: columns cannot be negative: %d", columns);
+	    "%s: columns cannot be negative: %d", function, columns);
 	return -1;
     }
     if (frequencies < 0) {
 	_vnadata_error(vdip, VNAERR_USAGE,
-	    "vnadata_resize: frequencies cannot be negative: %d", frequencies);
+	    "%s: frequencies cannot be negative: %d", function, frequencies);
 	return -1;
     }
-    if (validate_type(__func__, vdip, type, rows, columns) == -1) {
+    if (validate_type(function, vdip, type, rows, columns) == -1) {
 	return -1;
     }
     old_ports = MAX(vdp->vd_rows, vdp->vd_columns);
@@ -479,6 +480,20 @@ int vnadata_resize(vnadata_t *vdp, vnadata_parameter_type_t type,
 }
 
 /*
+ * vnadata_resize: redefine the dimensions and parameter type
+ *   @vdp: pointer to vnacal_data_t structure
+ *   @type: new network parameter data type
+ *   @rows: new number of rows
+ *   @columns: new number of columns
+ *   @frequencies: new number of frequencies
+ */
+int vnadata_resize(vnadata_t *vdp, vnadata_parameter_type_t type,
+	int rows, int columns, int frequencies)
+{
+    return resize_common(__func__, vdp, type, rows, columns, frequencies);
+}
+
+/*
  * vnadata_init: resize and initialize a vnadata_t structure
  *   @type: network parameter data type (see above)
  *   @rows: number of matrix rows
@@ -488,9 +503,9 @@ int vnadata_resize(vnadata_t *vdp, vnadata_parameter_type_t type,
 int vnadata_init(vnadata_t *vdp, vnadata_parameter_type_t type,
 	int rows, int columns, int frequencies)
 {
-    (void)vnadata_resize(vdp, VPT_UNDEF, 0, 0, 0);
+    (void)resize_common(__func__, vdp, VPT_UNDEF, 0, 0, 0);
     (void)vnadata_set_all_z0(vdp, VNADATA_DEFAULT_Z0);
-    return vnadata_resize(vdp, type, rows, columns, frequencies);
+    return resize_common(__func__, vdp, type, rows, columns, frequencies);
 }
 
 /*
